@@ -93,7 +93,7 @@ CHECKS = {
     ),
     "C09": (
         "exhaustive enumeration of masks x scripted request sequences (E4) x samplers x scaler x start values, real short optimizer runs with a wrapped scipy entry point, nested plans",
-        "Bounded exhaustive exploration of the implementation: all 7 masks (+none) of 3 variables, every scripted request sequence to depth 3 (quick) / 4 (thorough) incl. batch requests, from configured and explicit start values; slsqp / nelder-mead / differential evolution (scalar and vectorized) runs; nested plans with complementary masks; every evaluator row and every delivered result monitored.",
+        "Bounded exhaustive exploration of the implementation: all 7 masks (+none) of 3 variables, every scripted request sequence to depth 3 (quick) / 4 (thorough) incl. batch requests, from configured and explicit start values; slsqp / nelder-mead / differential evolution (scalar and vectorized) runs; nested plans with complementary masks; every evaluator row and every delivered result monitored; plus 24 single 300-variable instances (spot instances, not an exhaustive bound) through EnsembleEvaluator.calculate.",
         "Trusted: the monitors (harness); SciPy algorithms.",
         "DESIGN.md 2/C09",
     ),
